@@ -36,6 +36,7 @@ type item struct {
 	goR  string
 	kind string
 	cmp  func(goR, modelR string) string // "" = agree, otherwise what differs
+	pred string                          // known-finding predicate that applies to this spec line ("" = none)
 	spec string                          // non-empty: the model line is a specification judging the implementation's output; a mismatch is a property violation
 }
 
@@ -602,6 +603,10 @@ func goRelativize(b, v string) (res relResult, rb *iri.BaseIRI) {
 // relCase: RelativizeIRI on the implementation, the property oracle (re-resolve with BaseIRI.Parse),
 // and the protocol line for the model.
 func (h *harness) relCase(kind, b, v string) {
+	if !validPct(v) {
+		h.rep.Count("rel:skipped-malformed-percent-escape")
+		return
+	}
 	res, rb := goRelativize(b, v)
 	if res.badBase {
 		h.rep.Count("rel:base-rejected-by-net/url")
@@ -629,7 +634,11 @@ func (h *harness) relCase(kind, b, v string) {
 		}
 		// RFC 3986 section 5.2 as written in Spec/RFC3986Lite.lean judges the offered reference (any base; the
 		// repository's resolver roots relative base paths, so it cannot be asked about relative bases)
-		h.items = append(h.items, item{line: "pm.spec " + vh.XS(b) + " " + vh.XS(res.rel), goR: vh.XS(v), kind: "rel-spec-oracle", cmp: cmpExact,
+		pred := ""
+		if res.rel == "" && strings.Contains(b, "#") {
+			pred = "rel-empty-ref-base-has-fragment"
+		}
+		h.items = append(h.items, item{line: "pm.spec " + vh.XS(b) + " " + vh.XS(res.rel), goR: vh.XS(v), kind: "rel-spec-oracle", cmp: cmpExact, pred: pred,
 			spec: fmt.Sprintf("RelativizeIRI(base %q, %q) = %q does not resolve back under RFC 3986 5.2", b, v, res.rel)})
 		if len(res.rel) < len(v) {
 			h.rep.Count("rel:shortened")
@@ -648,10 +657,28 @@ func (h *harness) baseCase(b string) {
 	h.add("base", "pm.base "+vh.XS(b), fmt.Sprintf("%d %d %d %d %d", ix[0], ix[1], ix[2], ix[3], ix[4]), rb.IsAbs(), cmpExact)
 }
 
+// validPct: every '%' is followed by two hex digits (anything else is not an IRI and net/url refuses it)
+func validPct(s string) bool {
+	isHex := func(c byte) bool { return '0' <= c && c <= '9' || 'a' <= c && c <= 'f' || 'A' <= c && c <= 'F' }
+	for i := 0; i < len(s); i++ {
+		if s[i] == '%' && !(i+2 < len(s) && isHex(s[i+1]) && isHex(s[i+2])) {
+			return false
+		}
+	}
+	return true
+}
+
+// hasScheme: Appendix B would read a scheme (references with a scheme are resolved to themselves; the
+// repository reclassifies some of them as opaque - C12's known deviation, not exercised here)
+func hasScheme(r string) bool {
+	i := strings.IndexAny(r, ":/?#")
+	return i > 0 && r[i] == ':'
+}
+
 // resolveCase ties Model.goResolve (RFC 3986 §5.2 + the empty-base-path branch) to BaseIRI.Parse on the domain.
 func (h *harness) resolveCase(b, r string) {
 	rb, err := iri.ParseBaseIRI(b)
-	if err != nil || !rb.IsAbs() {
+	if err != nil || !rb.IsAbs() || hasScheme(r) || !validPct(r) {
 		return
 	}
 	p, err := rb.Parse(r)
@@ -686,15 +713,49 @@ func (h *harness) genSegment() string {
 	}
 }
 
-func (h *harness) genQF() string {
+func (h *harness) genQF() string { return h.genQFe(true) }
+
+// genQFe: optional query and fragment; empty ones only when allowed
+func (h *harness) genQFe(empty bool) string {
 	s := ""
-	if h.r.Chance(30) {
-		s += "?" + vh.Pick(h.r, []string{"", "q", "x", "a=b&c", "q/r", "q?r", "a:b"})
+	qs := []string{"q", "x", "a=b&c", "q/r", "q?r", "a:b", ""}
+	fs := []string{"f", "g", "f/g", "f?g", "f#g", "a:b", ""}
+	if !empty {
+		qs, fs = qs[:6], fs[:6]
 	}
 	if h.r.Chance(30) {
-		s += "#" + vh.Pick(h.r, []string{"", "f", "g", "f/g", "f?g", "f#g", "a:b"})
+		s += "?" + vh.Pick(h.r, qs)
+	}
+	if h.r.Chance(30) {
+		s += "#" + vh.Pick(h.r, fs)
 	}
 	return s
+}
+
+// mutate: a few edits of s drawn from the delimiters that steer RelativizeIRI (stays inside URI characters)
+func (h *harness) mutate(s string) string {
+	b := []byte(s)
+	for i, n := 0, 1+h.r.Intn(3); i < n; i++ {
+		if len(b) == 0 {
+			b = append(b, vh.Pick(h.r, relHot))
+			continue
+		}
+		p := h.r.Intn(len(b))
+		switch h.r.Intn(4) {
+		case 0:
+			b = append(b[:p:p], b[p+1:]...)
+		case 1:
+			b = append(b[:p:p], append([]byte{vh.Pick(h.r, relHot)}, b[p:]...)...)
+		case 2:
+			if b[p] < 0x80 {
+				b[p] = vh.Pick(h.r, relHot)
+			}
+		default:
+			q := p + h.r.Intn(len(b)-p+1)
+			b = append(b[:q:q], append(append([]byte(nil), b[p:q]...), b[q:]...)...)
+		}
+	}
+	return string(b)
 }
 
 // genBase: absolute hierarchical base from lower-case schemes and ASCII reg-name hosts, no userinfo, no
@@ -702,10 +763,14 @@ func (h *harness) genQF() string {
 func (h *harness) genBase() string {
 	s := vh.Pick(h.r, []string{"http", "https", "ex", "a+b.c"}) + "://" + vh.Pick(h.r, []string{"e", "example.org", "a.b", "192.0.2.1", "e:8080"})
 	if h.r.Chance(12) {
-		return s + h.genQF()
+		return s + h.genQFe(false)
 	}
 	for i, n := 0, h.r.Intn(4); i < n; i++ {
-		s += "/" + h.genSegment()
+		seg := h.genSegment()
+		if seg == "." || seg == ".." {
+			seg = "d"
+		}
+		s += "/" + seg
 	}
 	if h.r.Chance(40) {
 		s += "/"
@@ -713,7 +778,7 @@ func (h *harness) genBase() string {
 	if !strings.Contains(s[strings.Index(s, "://")+3:], "/") {
 		s += "/"
 	}
-	return s + h.genQF()
+	return s + h.genQFe(false)
 }
 
 var relHot = []byte("/.:?#@ab")
@@ -770,7 +835,7 @@ func (h *harness) genTarget(b string) string {
 		}
 		return h.genQF()
 	default:
-		return string(h.r.Mutate([]byte(b), relHot))
+		return h.mutate(b)
 	}
 }
 
@@ -986,7 +1051,7 @@ func (h *harness) replayLine(l string) {
 func main() {
 	flag.Parse()
 	seed := vh.SeedFromEnv()
-	rep := vh.NewReport("C13", *tier, seed, "PrefixManager: histories of NewPrefixManager/AddPrefixMappings/DeletePrefixes/Clone over a pool of 10 prefixes (incl. empty and non-ASCII) and nested, duplicate, empty and non-ASCII namespaces (4% with 20-60 mappings), observed by GetPrefixMappings/CompactPrefix/ExpandPrefix directly and through UsagePrefixMapper, IRIs placed at/around the namespaces; non-trivial = at least one mutation after construction. BaseIRI: absolute bases from lower-case hierarchical schemes with ASCII reg-name hosts, no userinfo, no dot segments in the base, well-formed percent-escapes (the domain on which C12 ties the net/url wrapper to RFC 3986; its known deviations - scheme case, host escaping, opaque reclassification - are outside C13), empty and non-empty paths, with IRIs equal to the base, its directory, siblings, children, other directories, other authorities/schemes, differing only in query/fragment, with ':' in the first relative segment, '//' and dot segments, truncations and delimiter mutations of the base; plus a few relative bases; non-trivial = absolute base and IRI different from it. CURIE: scopes (safe, default prefix, empty default) x tables x IRIs, parser/printers on delimiter-heavy strings; non-trivial = the IRI compacts")
+	rep := vh.NewReport("C13", *tier, seed, "PrefixManager: histories of NewPrefixManager/AddPrefixMappings/DeletePrefixes/Clone over a pool of 10 prefixes (incl. empty and non-ASCII) and nested, duplicate, empty and non-ASCII namespaces (4% with 20-60 mappings), observed by GetPrefixMappings/CompactPrefix/ExpandPrefix directly and through UsagePrefixMapper, IRIs placed at/around the namespaces; non-trivial = at least one mutation after construction. BaseIRI: absolute bases from lower-case hierarchical schemes with ASCII reg-name hosts, no userinfo, no dot segments and no empty query or fragment in the base, URI characters and well-formed percent-escapes only (the domain on which C12 ties the net/url wrapper to RFC 3986; its known deviations - scheme case, host escaping, opaque reclassification - are outside C13), empty and non-empty paths, with IRIs equal to the base, its directory, siblings, children, other directories, other authorities/schemes, differing only in query/fragment, with ':' in the first relative segment, '//' and dot segments, truncations and delimiter mutations of the base; plus a few relative bases; non-trivial = absolute base and IRI different from it. CURIE: scopes (safe, default prefix, empty default) x tables x IRIs, parser/printers on delimiter-heavy strings; non-trivial = the IRI compacts")
 	h := &harness{r: vh.NewRng(seed), rep: rep}
 	fs, err := vh.LoadFindings(*findings)
 	if err != nil {
@@ -1065,7 +1130,7 @@ func main() {
 		rep.Compared++
 		if d := it.cmp(it.goR, res[i]); d != "" {
 			if it.spec != "" {
-				rep.Add(vh.Case{Kind: "violation", Op: it.line, Go: it.goR, Model: res[i], Detail: it.spec})
+				h.knownOr(it.pred, it.pred != "", it.line, it.spec)
 				continue
 			}
 			rep.Add(vh.Case{Kind: "disagreement", Op: it.line, Go: it.goR, Model: res[i], Detail: it.kind + ": " + d})
